@@ -494,6 +494,11 @@ def judge_records(ctx, family, module, cfg, recs, shards=None, timeout=900, env=
 def negative_control(ctx, family, module, cfg, recs, mutate, expect=None, tries=4, env=None, extra_files=None):
     """Binding check: a copy of real records with ONE corrupted field must be rejected by TLC.
     mutate(rec, rng) -> corrupted copy or None if that record is not suitable."""
+    if ctx.violations:
+        # records of code that breaks the property are not a sound basis for "a corrupted record must be rejected"
+        # (the corruption may turn a wrong record into a right one); the verdict does not depend on this control
+        ctx.notes.append("negative control skipped: the records already contain property failures")
+        return
     rng = _random.Random(ctx.seed * 7919 + 13)
     idx = list(range(len(recs)))
     rng.shuffle(idx)
